@@ -102,11 +102,19 @@ def _candidates(fn, spec):
     return found
 
 
+_SYMTAB = {}
+
+
 def renamable(mod_text, fn):
     """Locals of fn that can be renamed consistently (not parameters, globals, imports, or names rebound in nested scopes)."""
-    try:
-        top = symtable.symtable(mod_text, "<module>", "exec")
-    except SyntaxError:
+    key = hash(mod_text)
+    if key not in _SYMTAB:
+        try:
+            _SYMTAB[key] = symtable.symtable(mod_text, "<module>", "exec")
+        except SyntaxError:
+            _SYMTAB[key] = None
+    top = _SYMTAB[key]
+    if top is None:
         return None
 
     def find(tab):
